@@ -62,7 +62,7 @@ def main():
         coqcopy = tempfile.mkdtemp(prefix="seedcoq-", dir="/var/tmp")
         os.rmdir(coqcopy)
         sh(["cp", "-a", "--reflink=auto", os.path.join(VERIF, "coq"), coqcopy])
-        e3 = dict(os.environ, VERIF_REPO=wt, VERIF_COQ=coqcopy, VERIF_TIER=tier, VERIF_EVIDENCE=os.path.join(scratch, "evidence"))
+        e3 = dict(os.environ, VERIF_REPO=wt, VERIF_COQ=coqcopy, VERIF_TIER=tier, VERIF_EVIDENCE=os.path.join(scratch, "evidence"), VERIF_REPLAYS=os.path.join(scratch, "replays"))
         e3.pop("VERIF_ENV_READY", None)
         rc, o = sh(["timeout", "3000", "/venv/bin/python", os.path.join(VERIF, "harness", "check.py"), pid, "--tier", tier], cwd=VERIF, env=e3)
         out["check_exit"] = rc
